@@ -307,7 +307,7 @@ def run_cbmc(proof, gb, tmp, log, backend=None, extra=None, timeout=None):
     cmd = ["cbmc", gb, "--json-ui"] + flags + (extra or [])
     log.append("$ " + " ".join(cmd))
     rc, out, err, secs = sh(cmd, cwd=tmp, timeout=timeout or proof.get("timeout", 900),
-                            mem_gb=proof.get("mem_gb", 24))
+                            mem_gb=proof.get("mem_gb", 10))
     results, status, msgs = parse_cbmc_json(out)
     return dict(rc=rc, results=results, status=status, msgs=msgs, secs=secs, cmd=" ".join(cmd),
                 err=err[-2000:], raw_tail=out[-2000:])
